@@ -7,6 +7,7 @@
   (`Cellml/Generated/Methods.lean`).
 -/
 import Cellml.Struct.Helpers
+import Cellml.Generated.NeedFlags
 import Cellml.Generated.Profiles
 import Cellml.Generated.Methods
 namespace Cellml.Props.C17
@@ -125,5 +126,27 @@ example : emitted Cellml.Generated.Profiles.profC Cellml.Generated.Methods.hasBo
     [.node .AND (.node .MIN (.ci "a") (.ci "b")) (.node .SEC (.ci "a") .nul)] = [.min, .sec] := by decide
 example : emitted Cellml.Generated.Profiles.profPy Cellml.Generated.Methods.hasBodyPy
     [.node .AND (.node .MIN (.ci "a") (.ci "b")) (.node .SEC (.ci "a") .nul)] = [.and, .min, .sec] := by decide
+
+/-! ### the wiring of the helper flags through analyser, analysed model and generator (tables regenerated from the source) -/
+
+/-- the flag that belongs to a MathML element: `sec` ↦ `Sec`, `arccoth` ↦ `Acoth` -/
+def flagOf (e : String) : String :=
+  let b := if e.startsWith "arc" then "a" ++ (e.drop 3).toString else e
+  b.capitalize
+
+/-- T-tie: meeting element `e` sets the flag of `e`; the accessor `need<X>Function` returns flag `X`; the generator emits
+    the profile string of `X` when it tests accessor `X`; and the three tables speak about the same flags in the same
+    order — so a helper is emitted exactly for the elements that need it (no crossed wire such as `needAcothFunction`
+    returning the `acot` flag) -/
+theorem need_flags_wired :
+    (∀ p ∈ Cellml.Generated.NeedFlags.setters, p.2 = flagOf p.1)
+      ∧ (∀ p ∈ Cellml.Generated.NeedFlags.accessors, p.1 = p.2)
+      ∧ (∀ p ∈ Cellml.Generated.NeedFlags.emitters, p.2 = p.1.decapitalize)
+      ∧ Cellml.Generated.NeedFlags.setters.map (·.2) = Cellml.Generated.NeedFlags.accessors.map (·.1)
+      ∧ Cellml.Generated.NeedFlags.accessors.map (·.1) = Cellml.Generated.NeedFlags.emitters.map (·.1)
+      ∧ (Cellml.Generated.NeedFlags.accessors.map (·.1)).Nodup := by
+  decide +kernel
+
+example : flagOf "arccoth" = "Acoth" ∧ flagOf "min" = "Min" := by decide +kernel
 
 end Cellml.Props.C17
